@@ -847,7 +847,7 @@ class WalkMapper(RecursiveMapper):
             return
 
         for _bits, coeff in expr.data.items():
-            self.rec(coeff)
+            self.rec(coeff, *args, **kwargs)
 
         self.post_visit(expr, *args, **kwargs)
 
@@ -919,7 +919,7 @@ class WalkMapper(RecursiveMapper):
     map_max = map_sum
 
     def map_substitution(self, expr, *args, **kwargs):
-        if not self.visit(expr):
+        if not self.visit(expr, *args, **kwargs):
             return
 
         self.rec(expr.child, *args, **kwargs)
